@@ -40,7 +40,7 @@ func c15Token(tag string, n int) []byte {
 // parameter made of symbolic token bytes.
 func c15Decorate(name string, tag string, shape int) string {
 	type sh struct{ lead, cv, param, trail int }
-	shapes := []sh{{0, 0, 0, 0}, {1, 1, 0, 0}, {2, 2, 0, 1}, {0, 1, 1, 0}, {1, 0, 2, 2}, {0, 2, 1, 1}, {2, 1, 2, 0}, {0, 0, 0, 2}}
+	shapes := []sh{{0, 0, 0, 0}, {1, 1, 0, 0}, {2, 2, 0, 1}, {0, 1, 1, 0}, {1, 0, 2, 2}, {0, 2, 1, 1}, {2, 1, 2, 0}, {0, 0, 0, 2}, {0, 0, 3, 0}, {1, 1, 4, 1}}
 	h := shapes[shape%len(shapes)]
 	var out []byte
 	out = append(out, c15WS(tag+".lead", h.lead)...)
@@ -57,6 +57,15 @@ func c15Decorate(name string, tag string, shape int) string {
 		out = append(out, c15Token(tag+".pk", 1)...)
 		out = append(out, '=')
 		out = append(out, c15Token(tag+".pv", 2)...)
+	case 3: // whitespace between the subtype and the separator: "type/subtype ; k=v"
+		out = append(out, c15WS(tag+".mid", 1)...)
+		out = append(out, ';', ' ')
+		out = append(out, c15Token(tag+".pk", 1)...)
+		out = append(out, '=')
+		out = append(out, c15Token(tag+".pv", 1)...)
+	case 4: // a bare separator after whitespace: "type/subtype ;"
+		out = append(out, c15WS(tag+".mid", 2)...)
+		out = append(out, ';')
 	case 2: // ;token="quoted"
 		out = append(out, ';')
 		out = append(out, c15Token(tag+".pk", 2)...)
@@ -86,11 +95,13 @@ func HC15Decorated() {
 		return
 	}
 	vAssert(l.Is(nm.name), "lookup-result-is-name")
-	shape := vChoice("shape", 8)
+	shape := vChoice("shape", 10)
 	d1 := c15Decorate(nm.name, "d1", shape)
 	vAssert(l.Is(d1), "is-ignores-decoration")
 	d2 := c15Decorate(nm.name, "d2", shape+3)
 	vAssert(EqualsAny(d1, "x/y", d2), "equalsany-ignores-decoration")
+	vAssert(EqualsAny(nm.name, d1), "equalsany-plain-vs-decorated")
+	vAssert(EqualsAny(d2, nm.name), "equalsany-decorated-vs-plain")
 	vReach("end")
 }
 
